@@ -153,7 +153,9 @@ func c08(args []string) int {
 	for name, files := range workspaces {
 		writeTree(filepath.Join(base, name), files)
 	}
-	targets := map[string][]string{"single": {"./..."}, "intests": {"./..."}, "exttests": {"./..."}, "three": {"./..."}}
+	workspaces["files"] = map[string]string{"go.mod": "module w\n\ngo 1.21\n", "a/a.go": c08A, "a/a2.go": c08A2, "b/b.go": c08B}
+	writeTree(filepath.Join(base, "files"), workspaces["files"])
+	targets := map[string][]string{"single": {"./..."}, "intests": {"./..."}, "exttests": {"./..."}, "three": {"./..."}, "files": {"./a/a.go", "./a/a2.go"}}
 	var cfgs []c08Cfg
 	cfgs = append(cfgs,
 		c08Cfg{"default", nil, nil},
@@ -181,7 +183,7 @@ func c08(args []string) int {
 	results := map[string]map[string]*result{} // ws|cfg -> fe -> result
 	var wg sync.WaitGroup
 	sem := make(chan struct{}, 12)
-	wsNames := []string{"single", "intests", "exttests", "three"}
+	wsNames := []string{"single", "intests", "exttests", "three", "files"}
 	for _, wsn := range wsNames {
 		for ci, c := range cfgs {
 			if tier == "quick" && wsn != "three" && wsn != "exttests" && ci >= 6 && ci%3 != 0 {
@@ -303,7 +305,7 @@ func c08(args []string) int {
 	c08InProcess(ev)
 
 	ev.Sample(map[string]interface{}{"workspace": "three packages with in-package tests", "config": "-enable=#style,hugeParam -disable=assignOp", "binaries": fes, "oracle": "identical sets of (file,line,col,checker,message), each exactly once"})
-	ev.Set("rule", "4 workspaces (single package; in-package tests; external tests; three packages) x configurations expressible in both flag dialects (default, enable-all, -go versions, 8 enable/disable list pairs, every checker parameter at a non-default value) x the 4 real binaries; go-critic is the reference. non-trivial = configuration with at least one diagnostic")
+	ev.Set("rule", "5 workspaces (single package; in-package tests; external tests; three packages; explicit file arguments) x configurations expressible in both flag dialects (default, enable-all, -go versions, 8 enable/disable list pairs, every checker parameter at a non-default value) x the 4 real binaries; go-critic is the reference. non-trivial = configuration with at least one diagnostic")
 	return ev.Finish()
 }
 
